@@ -21,6 +21,8 @@ def cases(tier, seed):
         out.append(dict(src=s, family="every-library-gate"))
     for s in gen.expr_cases(rnd, 60 if tier == "quick" else 600)[-(60 if tier == "quick" else 600):]:
         out.append(dict(src=s, family="expressions-as-parameters"))
+    for s in gen.cast_use_cases():
+        out.append(dict(src=s, family="converted-values-as-indices-and-parameters"))
     return out
 
 
@@ -76,7 +78,14 @@ def _reload_worker(src):
         b = ir.clist([ir.stmt(s) for s in r.original_program.statements])
     except ir.Unconvertible as e:
         return ("unconvertible", str(e))
-    if flatsim.from_ast(r.original_program.statements, strict=False) != flatsim.from_ast(stmts, strict=False):
+    def ops_of(ss):
+        try:
+            return flatsim.from_ast(ss, strict=False)
+        except flatsim.NotFlat as e:
+            return ("not-flat", str(e), id(ss))      # never equal to another program's ops
+    if flat_err and ops_of(stmts)[:1] == ("not-flat",):
+        return ("not-flat", flat_err, known, text)
+    if ops_of(r.original_program.statements) != ops_of(stmts):
         return ("parses-differently", "the printed text parses to a different program", known, text)
     try:
         r.validate()
@@ -88,7 +97,7 @@ def _reload_worker(src):
         text2 = pyqasm.dumps(r2)
     except Exception as e:
         return ("reunroll-fails", "%s: %s" % (type(e).__name__, str(e)[:150]), known, text)
-    if flatsim.from_ast(r2.unrolled_ast.statements, strict=False) != flatsim.from_ast(stmts, strict=False):
+    if ops_of(r2.unrolled_ast.statements) != ops_of(stmts):
         return ("not-a-fixpoint", "unrolling the unrolled program changes it", known, text)
     if text2 != text:
         return ("not-a-fixpoint-text", "unrolling the unrolled program changes its text", known, text)
